@@ -9,7 +9,7 @@ From MV Require Import Base.Bytes Model.DnsLayer.
 Import ListNotations.
 
 Inductive tres := TOk (i : nat) | TStruct | TOther.
-Inductive iact := INone | ISetResp (i : nat) | IClearResp | ISetErr.
+Inductive iact := INone | ISetResp (i : nat) | IClearResp | ISetErr | IResolve (rc n : N) (an : bytes).
 Inductive iout :=
 | IHook (k : hookk) (ord : nat) (req resp : option nat) (err : bool)
 | IOpen
@@ -17,7 +17,7 @@ Inductive iout :=
 | IClose (client : bool)
 | ICrash.
 
-Record case := mkCase {
+Record lcase := mkCase {
   c_cfg : cfg;
   c_pool : list message;
   c_table : list (bytes * tres);
@@ -53,6 +53,7 @@ Definition act_of (pool : list message) (a : iact) : act :=
   | ISetResp i => ASetResp (nth i pool dummy)
   | IClearResp => AClearResp
   | ISetErr => ASetErr
+  | IResolve rc n an => AResolve rc n an
   end.
 
 Definition optmsg_eqb (pool : list message) (m : option message) (i : option nat) : bool :=
@@ -96,8 +97,19 @@ Definition lives_ok (s : st) (l : list (nat * bool)) : bool :=
   && forallb (fun p => match live_of (fst p) (all_flows s) with
                        | Some b => Bool.eqb b (snd p) | None => false end) l.
 
-Definition check_case (c : case) : bool :=
+Definition check_lcase (c : lcase) : bool :=
   let pool := c_pool c in
   let r := run (lookup (c_table c) pool) (c_cfg c)
                (init (map (act_of pool) (c_script c)) (c_conn c)) (c_events c) in
   outs_eqb pool (snd r) (c_trace c) && lives_ok (fst r) (c_lives c).
+
+(* One: a single connection.  Many: the connections of an end-to-end run in regular dns mode with
+   the real DnsResolver addon (each connection has its own layer; that they do not influence each
+   other is C27_concurrent_clients_independent), every connection checked against its own run. *)
+Inductive case := One (l : lcase) | Many (ls : list lcase).
+
+Definition check_case (c : case) : bool :=
+  match c with
+  | One l => check_lcase l
+  | Many ls => forallb check_lcase ls
+  end.
